@@ -87,7 +87,7 @@ def family(tier, seed):
         C("A3_1e", "ijk=-jik=-ikj", dict(i="1e"), tier="thorough"),
         C("S3_0e1o", "ijk=jik=ikj", dict(i="0e+1o"), tier="thorough"),
         C("A3_0e1o", "ijk=-jik=-ikj", dict(i="0e+1o"), tier="thorough"),
-        C("S3_2e", "ijk=jik=ikj", dict(i="2e"), tier="thorough"),
+        C("S3_2e", "ijk=jik=ikj", dict(i="2e"), tier="thorough", prog=False, exact=False),   # numeric oracles only (size)
         C("A3_2e", "ijk=-jik=-ikj", dict(i="2e"), tier="thorough"),
         C("P3_1o_2e", "ijk=-jik", dict(i="1o", k="2e"), tier="thorough"),
         C("P3m_1o", "ijk=-jik", dict(i="1o", k="1o"), tier="thorough"),
@@ -104,12 +104,12 @@ def family(tier, seed):
         C("R4_1o", "ijkl=-jikl=-ijlk=klij", dict(i="1o"), tier="thorough"),
         C("F4_1e", "ijkl=jikl=ikjl=ijlk", dict(i="1e"), tier="thorough"),
         C("A4_1o", "ijkl=-jikl=-ikjl=-ijlk", dict(i="1o"), tier="thorough", exact=False, prog=False),   # Λ⁴(ℝ³) = 0
-        C("A4_0e1o", "ijkl=-jikl=-ikjl=-ijlk", dict(i="0e+1o"), tier="thorough"),
+        C("A4_0e1o", "ijkl=-jikl=-ikjl=-ijlk", dict(i="0e+1o"), tier="thorough", prog=False, exact=False),   # numeric oracles only (size)
         C("E4_1o", "ijkl=jikl=ijlk", dict(i="1o", k="1o"), tier="thorough"),
         C("P4_1o", "ijkl=klij", dict(i="1o", j="1o"), tier="thorough"),
         C("Y4_1o", "ijkl=jkli", dict(i="1o"), tier="thorough"),
-        C("F4_0e1o", "ijkl=jikl=ikjl=ijlk", dict(i="0e+1o"), tier="thorough", prog=False),
-        C("R4_0e1o", "ijkl=-jikl=-ijlk=klij", dict(i="0e+1o"), tier="thorough", prog=False),
+        C("F4_0e1o", "ijkl=jikl=ikjl=ijlk", dict(i="0e+1o"), tier="thorough", exact=False, prog=False),   # numeric oracles only (size)
+        C("R4_0e1o", "ijkl=-jikl=-ijlk=klij", dict(i="0e+1o"), tier="thorough", exact=False, prog=False),   # numeric oracles only (size)
         C("S2_2e_fo", "ij=ji", dict(i="2e"), filter_ir_out=["0e", "4e"], tier="thorough"),
         C("S2_1o2e_fo", "ij=ji", dict(i="1o+2e"), filter_ir_out=["1o", "3o", "2e"], tier="thorough"),
         C("S3_0e1o_fo", "ijk=jik=ikj", dict(i="0e+1o"), filter_ir_out=["1o", "3o"], tier="thorough"),
@@ -322,39 +322,113 @@ end E3nnVerif.Generated.RTP.{cfg.name}
     return src
 
 
-# certificates are split over three files per configuration (A: structure, B: linear algebra, P: program) so that lake
-# checks them in parallel
-CHECKS_A = [
-    ("shape_ok", "shapeCheck cfg"),
-    ("group_ok", "groupCheck cfg"),
-    ("sym_ok", "symCheck cfg"),
-    ("parity_ok", "parityCheck cfg"),
-]
-CHECKS_B = [
-    ("ortho_ok", "orthoCheck cfg"),
-    ("inter_x_ok", "interCheck cfg 0"),
-    ("inter_y_ok", "interCheck cfg 1"),
-]
-CHECKS_A_COMPLETE = [("count_ok", "countCheck cfg")]
-CHECKS_B_COMPLETE = [("compl_ok", "complCheck cfg")]
-CHECKS_P = [("prog_ok", f"progCheck cfg {B} prog")]
+# ---- certificates ------------------------------------------------------------------------------------------
+# Every check of Model/RTPChecks.lean is `allRange n rowPredicate`.  The kernel decides the row predicate on consecutive
+# blocks of rows in separate theorems (bounded memory per theorem: the kernel's caches live per declaration) which are
+# packed into part files `<name>_P<i>.lean` of bounded estimated cost (lake checks ≤ 3 of them at a time); the glue file
+# `<name>_Z.lean` derives the `…_ok : …Check cfg = true` statements with `allRange_of_blocks`.
+SEC_PER_THEOREM = 10.0     # target kernel time of one block theorem  (≈ 110 MB of kernel memory per second)
+SEC_PER_FILE = 40.0        # target kernel time of one part file
 
 
-def cert_parts(cfg: Config, has_prog):
-    """part -> list of (theorem name, Bool expression)"""
-    parts = {"A": list(CHECKS_A), "B": list(CHECKS_B)}
+def split_blocks(n, k):
+    k = max(1, min(k, n)) if n > 0 else 1
+    out, lo = [], 0
+    for i in range(k):
+        hi = lo + (n - lo) // (k - i) if i < k - 1 else n
+        if n > 0 and hi == lo:
+            hi = lo + 1
+        out.append((lo, hi))
+        lo = hi
+    return [b for b in out if b[0] < b[1]] or [(0, n)]
+
+
+def cert_plan(cfg: Config, rtp, has_prog):
+    """returns (block_theorems, glue) :
+         block_theorems: list of (name, statement, estimated seconds)
+         glue: list of (name, statement, proof term) using the block theorems"""
+    from e3nn.math import germinate_formulas
+    D = rtp.irreps_out.dim
+    dims = [irs.dim for irs in rtp.irreps_in]
+    N = 1
+    for d in dims:
+        N *= d
+    G = len(germinate_formulas(cfg.formula)[1])
+    lmax = max([ir.l for _, ir in rtp.irreps_out] + [ir.l for irs in rtp.irreps_in for _, ir in irs] + [0])
+    lf = 1.0 + 0.35 * lmax           # higher degrees: larger radicands / denser generators (fitted on l = 3)
+    # seconds for the WHOLE check, measured on 'ijkl=jikl=klij' (D=21, N=81, |G|=8)
+    est = {
+        "ortho": 0.65e-3 * D * D * N / 2 * lf,
+        "sym": 1.4e-3 * D * N * G,
+        "parity": 0.7e-3 * D * N,
+        "inter_x": 4e-3 * D * N * lf,
+        "inter_y": 4e-3 * D * N * lf,
+        "compl": 4e-3 * N * N * lf,
+        "prog": 9.4e-3 * B * D * N * lf,
+    }
+    blocks, glue = [], []
+    blocks.append(("shape_ok", "shapeCheck cfg = true", 0.5))
+    blocks.append(("group_ok", "groupCheck cfg = true", 0.5 + 0.2e-3 * N * G))
+
+    def rows(check, pred, n, nexpr, total):
+        k = int(math.ceil(total / SEC_PER_THEOREM))
+        bs = split_blocks(n, k)
+        names = []
+        for i, (lo, hi) in enumerate(bs):
+            nm = f"{check}_b{i}"
+            names.append(nm)
+            blocks.append((nm, f"allFromTo {lo} {hi} ({pred}) = true", total * (hi - lo) / max(n, 1) + 0.3))
+        term = "blocksOk_nil"
+        for nm in reversed(names):
+            term = f"(blocksOk_cons {nm} {term})"
+        bl = "[" + ", ".join(f"({lo}, {hi})" for lo, hi in bs) + "]"
+        return f"allRange_of_blocks (n := {nexpr}) {bl} (by decide +kernel) {term}"
+
+    glue.append(("sym_ok", "symCheck cfg = true", rows("sym", "symRow cfg", D, "cfg.D", est["sym"])))
+    glue.append(("parity_ok", "parityCheck cfg = true", rows("parity", "parityRow cfg", D, "cfg.D", est["parity"])))
+    glue.append(("ortho_ok", "orthoCheck cfg = true", rows("ortho", "orthoRow cfg", D, "cfg.D", est["ortho"])))
+    glue.append(("inter_x_ok", "interCheck cfg 0 = true", rows("inter_x", "interRow cfg 0", D, "cfg.D", est["inter_x"])))
+    glue.append(("inter_y_ok", "interCheck cfg 1 = true", rows("inter_y", "interRow cfg 1", D, "cfg.D", est["inter_y"])))
     if cfg.complete:
-        parts["A"] += CHECKS_A_COMPLETE
-        parts["B"] += CHECKS_B_COMPLETE
+        blocks.append(("count_ok", "countCheck cfg = true", 0.5 + 0.5e-3 * N * G))
+        glue.append(("compl_ok", "complCheck cfg = true", rows("compl", "complRow cfg", dims[0] if dims else 1, "firstDim cfg.irIn", est["compl"])))
     if has_prog:
-        parts["P"] = list(CHECKS_P)
-    return parts
+        blocks.append(("prog_len", f"progLen cfg {B} prog = true", 1.0))
+        glue.append(("prog_ok", f"progCheck cfg {B} prog = true",
+                     "progCheck_of prog_len (" + rows("prog", f"progRow cfg {B} prog", B * D, f"{B} * cfg.D", est["prog"]) + ")"))
+    return blocks, glue
 
 
-def emit_cert(cfg: Config, part, theorems):
-    body = "\n".join(f"theorem {n} : {e} = true := by decide +kernel" for n, e in theorems)
+def pack(blocks):
+    """greedy packing of the block theorems into part files of bounded estimated cost"""
+    files, cur, t = [], [], 0.0
+    for b in blocks:
+        if cur and t + b[2] > SEC_PER_FILE:
+            files.append(cur)
+            cur, t = [], 0.0
+        cur.append(b)
+        t += b[2]
+    if cur:
+        files.append(cur)
+    return files
+
+
+def emit_cert_part(cfg: Config, theorems):
+    body = "\n".join(f"theorem {n} : {e} := by decide +kernel" for n, e, _ in theorems)
     return f"""import E3nnVerif.Generated.RTP.{cfg.name}
 /- generated by harness/rtp_family.py: kernel-decided certificates about the REGENERATED data Generated/RTP/{cfg.name}.lean -/
+namespace E3nnVerif.Cert.RTP.{cfg.name}
+open E3nnVerif.Model.RTP E3nnVerif.Generated.RTP.{cfg.name}
+{body}
+end E3nnVerif.Cert.RTP.{cfg.name}
+"""
+
+
+def emit_cert_glue(cfg: Config, nparts, glue):
+    imports = "\n".join(f"import E3nnVerif.Cert.RTP.{cfg.name}_P{i}" for i in range(nparts))
+    body = "\n".join(f"theorem {n} : {e} :=\n  {t}" for n, e, t in glue)
+    return f"""{imports}
+/- generated by harness/rtp_family.py: the checks of Model/RTPChecks.lean from their row blocks -/
 namespace E3nnVerif.Cert.RTP.{cfg.name}
 open E3nnVerif.Model.RTP E3nnVerif.Generated.RTP.{cfg.name}
 {body}
@@ -427,17 +501,29 @@ def prepare(ctx, o3, fam):
     ctx.write_generated("RTP/Registry.lean", emit_registry(okn))
     cert_dir = LEAN / "E3nnVerif" / "Cert" / "RTP"
     for n in okn:
-        parts = cert_parts(info[n]["cfg"], info[n]["has_prog"])
-        info[n]["parts"] = parts
-        for part, ths in parts.items():
-            write_if_changed(cert_dir / f"{n}_{part}.lean", emit_cert(info[n]["cfg"], part, ths))
+        blocks, glue = cert_plan(info[n]["cfg"], info[n]["rtp"], info[n]["has_prog"])
+        files = pack(blocks)
+        # part name -> list of theorem names ; "Z" = glue
+        info[n]["parts"] = {f"P{i}": [t[0] for t in ths] for i, ths in enumerate(files)}
+        info[n]["parts"]["Z"] = [g[0] for g in glue]
+        info[n]["est_seconds"] = round(sum(b[2] for b in blocks), 1)
+        rtp_ = info[n]["rtp"]
+        info[n]["lmax"] = max([ir.l for _, ir in rtp_.irreps_out] + [ir.l for irs in rtp_.irreps_in for _, ir in irs] + [0])
+        for i, ths in enumerate(files):
+            write_if_changed(cert_dir / f"{n}_P{i}.lean", emit_cert_part(info[n]["cfg"], ths))
+        write_if_changed(cert_dir / f"{n}_Z.lean", emit_cert_glue(info[n]["cfg"], len(files), glue))
+        # stale part files of an earlier, larger plan
+        for old in cert_dir.glob(f"{n}_P*.lean"):
+            m = re.fullmatch(rf"{re.escape(n)}_P(\d+)\.lean", old.name)
+            if m and int(m.group(1)) >= len(files):
+                old.unlink()
     return info
 
 
 def failed_certs(build_output):
     """(config, theorem-line) pairs whose certificate failed to build"""
     bad = {}
-    for m in re.finditer(r"E3nnVerif/Cert/RTP/(\w+)_([ABP])\.lean:(\d+):", build_output):
+    for m in re.finditer(r"E3nnVerif/Cert/RTP/(\w+)_(P\d+|Z)\.lean:(\d+):", build_output):
         bad.setdefault((m.group(1), m.group(2)), set()).add(int(m.group(3)))
     return bad
 
